@@ -58,7 +58,23 @@ def conflicting(a, b):
     return (pa is not None and pa == pb) or (ca is not None and ca == cb) or a["op"] == "delete" or b["op"] == "delete"
 
 
+def same_ident(a, b):
+    """The two calls name the same pid or the same content (they contend for the same lock entry)."""
+    pa, pb = a.get("pid"), b.get("pid")
+    ca = a.get("c", a.get("cid", {}).get("of"))
+    cb = b.get("c", b.get("cid", {}).get("of"))
+    return (pa is not None and pa == pb) or (ca is not None and ca == cb)
+
+
+def handover_preemptions(a, k):
+    ub = sched.UNTIL_BLOCKED
+    return [(a, 0), (ub, 0), (ub, 0), (k, 0), (ub, 0)]
+
+
 def case_cost(case):
+    if case.get("mode") == "handover":
+        return 15
+
     return 40 if case.get("max_preempt", 1) >= 2 else 1
 
 
@@ -102,6 +118,23 @@ def enumerate_cases(tier):
                         continue
                     yield dict(BASE, start_name=sname, start=STARTS[sname], calls=calls3, mode="triple", holds=list(t_holds),
                                family="holder-second-third")
+    # 'hand-over': H holds (parked after a steps), W runs until it blocks behind H, H runs to completion and hands
+    # over, W runs k steps (it is now INSIDE its critical section), a late third call runs until it blocks or
+    # returns, then W continues.  Catches exclusion that is lost at the moment a lock changes hands (per-identifier
+    # lock tables whose entry is dropped on release while a waiter already holds the old lock object).
+    ho_a = (6, 14, 24) if tier == "quick" else range(2, 40, 4)
+    ho_k = (2, 5, 9, 14, 20, 28) if tier == "quick" else range(1, 40, 2)
+    for sname in (("empty", "p=X") if tier == "quick" else ("empty", "p=X", "p=X,q=X", "X-unreferenced")):
+        for h in (0, 4, 6):
+            for w in range(len(MENU)):
+                for p3 in range(len(MENU)):
+                    calls3 = [MENU[h], MENU[w], MENU[p3]]
+                    if not (conflicting(calls3[0], calls3[1]) and conflicting(calls3[1], calls3[2])):
+                        continue
+                    if tier == "quick" and not (same_ident(calls3[0], calls3[1]) and same_ident(calls3[1], calls3[2])):
+                        continue
+                    yield dict(BASE, start_name=sname, start=STARTS[sname], calls=calls3, mode="handover", ho_a=list(ho_a),
+                               ho_k=list(ho_k), family="hand-over")
     # quick tier: the six most contended pairs already get every schedule with <=2 preemptions
     DEEP = {("p=X", 2, 6), ("r=X", 4, 6), ("empty", 0, 1), ("p=X,q=X", 6, 7), ("p=X", 5, 6), ("p=X", 0, 6)}
     for sname in STARTS:
@@ -194,6 +227,24 @@ def run_case(case, ctx):
             judge(ctx, world, case, calls, [0, 1, 2], [list(x) for x in pre], ex)
             ctx.nontrivial([case["start_name"], [conc.op_pattern(c, world) for c in calls], [c.get("pid") for c in calls], a, ex.outcomes])
         ctx.classify("holder-second-third-programs")
+    elif case["mode"] == "handover":
+        for a in case["ho_a"]:
+            waited_any = False
+            for k in case["ho_k"]:
+                pre = handover_preemptions(a, k)
+                ex = conc.run_program(world, calls, [0, 1, 2], pre)
+                if ex.used_preemptions == 0:
+                    break
+                ctx.count()
+                judge(ctx, world, case, calls, [0, 1, 2], [list(x) for x in pre], ex)
+                waited_any = waited_any or ex.waited[1]
+                if ex.waited[1]:
+                    ctx.nontrivial([case["start_name"], [conc.op_pattern(c, world) for c in calls], [c.get("pid") for c in calls], a, k, ex.outcomes])
+                if ex.used_preemptions < 2:
+                    break                  # the second call finished before k steps: larger k changes nothing
+            if not waited_any:
+                ctx.classify("hand-over: second call never had to wait at this hold point")
+        ctx.classify("hand-over-programs")
     else:
         ex = conc.run_program(world, calls, case["order"], [tuple(p) for p in case["preemptions"]])
         ctx.count()
